@@ -691,6 +691,56 @@ def auto_rewrites(src, toks, s, cb, relpath, fname, spec, ex):
             new = '_i%d' % counter[0]
             edits.append((toks[i + 1].start, 1, new, 'rewrite:R1'))
             log('R1', i + 1, 'for _ in', 'for %s in' % new)
+        # R9: `for x in a..b { B }` containing `continue`  ->
+        #     `{ let mut x_r9 = a; let x_end = b; while x_r9 < x_end { let x = x_r9; x_r9 += 1; B } }`
+        # (Range<usize>::next yields the current value and advances first, so `continue` needs no change)
+        if 'R9' in enabled and t.kind == 'ident' and t.text == 'for' and toks[i + 1].kind == 'ident' \
+                and toks[i + 2].text == 'in':
+            j = i + 3
+            dots = None
+            while toks[j].text != '{':
+                if toks[j].text in ('(', '['):
+                    j = rtok.match_close(toks, j)
+                elif toks[j].text == '..' and dots is None:
+                    dots = j
+                j += 1
+            brace, endb = j, rtok.match_close(toks, j)
+            has_continue = any(x.kind == 'ident' and x.text == 'continue' for x in toks[brace:endb])
+            if dots is not None and has_continue:
+                var = toks[i + 1].text
+                lo_e = src[toks[i + 3].start:toks[dots - 1].end]
+                hi_e = src[toks[dots + 1].start:toks[brace - 1].end]
+                hdr = '{ let mut %s_r9 = %s; let %s_end = %s; while %s_r9 < %s_end ' % (var, lo_e, var, hi_e, var, var)
+                edits.append((t.start, toks[brace].start - t.start, hdr, 'rewrite:R9'))
+                edits.append((toks[brace].end, 0, ' let %s = %s_r9; %s_r9 += 1;' % (var, var, var), 'rewrite:R9'))
+                edits.append((toks[endb].end, 0, ' }', 'rewrite:R9'))
+                log('R9', i, src[t.start:toks[brace].start], hdr)
+        # R6: `Self::f(` -> `f(` for associated functions lifted to free functions
+        if 'R6' in enabled and t.kind == 'ident' and t.text == 'Self' and i + 2 <= cb and toks[i + 1].text == '::' \
+                and toks[i + 2].kind == 'ident' and i + 3 <= cb and toks[i + 3].text == '(':
+            edits.append((t.start, toks[i + 1].end - t.start, '', 'rewrite:R6'))
+            log('R6', i, 'Self::' + toks[i + 2].text, toks[i + 2].text)
+        # R2: e.is_none_or(|p| body)  ->  match e { None => true, Some(p) => body }
+        if 'R2' in enabled and t.kind == 'ident' and t.text == 'is_none_or' and toks[i - 1].text == '.' \
+                and toks[i + 1].text == '(' and toks[i + 2].text == '|':
+            close = rtok.match_close(toks, i + 1)
+            rs = recv_start(toks, i - 1)
+            recv = src[toks[rs].start:toks[i - 2].end]
+            j = i + 3
+            while toks[j].text != '|':
+                j += 1
+            param = src[toks[i + 3].start:toks[j - 1].end]
+            b0, b1 = j + 1, close - 1
+            body = src[toks[b0].start:toks[b1].end]
+            # rewrites nested inside the closure body (R6) are applied textually here
+            if 'R6' in enabled:
+                body = re.sub(r'\bSelf::(\w+)\(', r'\1(', body)
+            new = 'match %s { None => true, Some(%s) => %s }' % (recv, param, body)
+            a, b = toks[rs].start, toks[close].end
+            edits.append((a, b - a, '(' + new + ')', 'rewrite:R2'))
+            log('R2', i, src[a:b], new)
+            i = close + 1
+            continue
         # R2: e.map_err(Into::into)  /  e.map_err(|p| body)
         if 'R2' in enabled and t.kind == 'ident' and t.text == 'map_err' and toks[i - 1].text == '.' \
                 and toks[i + 1].text == '(':
